@@ -1,1 +1,41 @@
 import TinsModel.Wire.App.Theorems
+open Tins.Wire.App
+-- C01
+#print axioms arp_parse_safe
+#print axioms vxlan_parse_safe
+#print axioms vxlan_parse_consumes
+#print axioms stp_parse_safe
+#print axioms bootp_parse_safe
+#print axioms rtp_parse_safe
+#print axioms dhcp_parseOpts_safe
+#print axioms dhcp_parse_safe
+#print axioms dhcpv6_parseOpts_safe
+#print axioms dhcpv6_parse_safe
+-- C02
+#print axioms arp_writesOnly
+#print axioms vxlan_writesOnly
+#print axioms stp_writesOnly
+#print axioms bootp_writesOnly
+#print axioms rtp_headerBytes_length
+#print axioms rtp_writesOnlyExact
+#print axioms rtp_writesOnly_nopad
+#print axioms serializeInto_ok_exact
+#print axioms dhcp_optsBytes_length
+#print axioms dhcp_writesOnly
+#print axioms dhcpv6_optsBytes_length
+#print axioms dhcpv6_writesOnly
+-- invariants
+#print axioms arp_parse_inv
+#print axioms vxlan_parse_inv
+#print axioms stp_parse_inv
+#print axioms bootp_parse_inv
+#print axioms rtp_parse_inv
+#print axioms dhcp_parse_inv
+#print axioms dhcp_addOption_inv
+#print axioms dhcp_removeOption_inv
+-- C03
+#print axioms arp_reparse
+#print axioms arp_write_reparse
+#print axioms vxlan_reparse
+#print axioms stp_reparse
+#print axioms bootp_reparse
